@@ -484,6 +484,62 @@ impl<'a> Outbound<'a> {
     }
 }
 
+#[cfg(minimq_verif)]
+impl Outbound<'_> {
+    /// Verification hook: canonical text dump of the complete outbound state.
+    pub(crate) fn verif_dump(&self, out: &mut std::string::String) {
+        use core::fmt::Write;
+        fn state(out: &mut std::string::String, state: SendState) {
+            match state {
+                SendState::Write { written } => write!(out, "W{}", written).unwrap(),
+                SendState::Flush => out.push('F'),
+                SendState::Sent => out.push('S'),
+            }
+        }
+        write!(out, "cap={} used={} buf=", self.buf.len(), self.used).unwrap();
+        let shown = self.used.min(self.buf.len());
+        for byte in &self.buf[..shown] {
+            write!(out, "{:02x}", byte).unwrap();
+        }
+        out.push_str(" ret=[");
+        for (i, entry) in self.retained.iter().enumerate() {
+            if i != 0 {
+                out.push(',');
+            }
+            write!(out, "{}:{}:{}:", entry.packet_id, entry.offset, entry.len).unwrap();
+            state(out, entry.state);
+        }
+        out.push_str("] ctl=[");
+        for (i, entry) in self.pending_control.iter().enumerate() {
+            if i != 0 {
+                out.push(',');
+            }
+            match entry.action {
+                ControlAction::PubAck { packet_id, reason } => {
+                    write!(out, "A{}:{}:", packet_id, u8::from(reason)).unwrap()
+                }
+                ControlAction::PubRec { packet_id, reason } => {
+                    write!(out, "R{}:{}:", packet_id, u8::from(reason)).unwrap()
+                }
+                ControlAction::PubComp { packet_id, reason } => {
+                    write!(out, "C{}:{}:", packet_id, u8::from(reason)).unwrap()
+                }
+                ControlAction::PingReq => out.push_str("P:"),
+            }
+            state(out, entry.state);
+        }
+        out.push_str("] rel=[");
+        for (i, entry) in self.pending_release.iter().enumerate() {
+            if i != 0 {
+                out.push(',');
+            }
+            write!(out, "{}:{}:", entry.packet_id, u8::from(entry.reason)).unwrap();
+            state(out, entry.state);
+        }
+        out.push(']');
+    }
+}
+
 pub(super) fn serialize_control_packet<E>(
     buffer: &mut [u8],
     packet: ControlAction,
